@@ -92,7 +92,7 @@ Example c09_gz_instance :
   let ef := fun (e : bool) => (true, (if e then [] else [72]) ++ [70]) in
   let fin := fun (e : bool) => (if e then [] else [72]) ++ [84] in
   (let '(_, _, rs, _) := grun bool ew ef fin (cinit 2) (GGz bool false) [OWrite [1]; OFlush; OPoll 0; OPoll 0; ODropWriter; OPoll 0; OPoll 0] in del_total rs)
-  = [72; 1; 1; 70; 84] /\
+  = [72; 1; 1; 70; 70; 84] /\
   (let '(_, _, rs, _) := grun bool ew ef fin (cinit 2) (GGz bool false) [ODropWriter; OPoll 0] in del_total rs) = [72; 84].
 Proof. vm_compute. split; reflexivity. Qed.
 
